@@ -875,4 +875,7 @@ func (p *AssignFaults) Act(e *Env) {
 		return
 	}
 	e.W.FailAssign[e.W.Height+1] = 1 + e.Ch.Intn("tss.assignfault.n", 3)
+	if e.Ch.Bool("tss.assignfault.panic", 400) {
+		e.W.FailAssignPanic[e.W.Height+1] = true
+	}
 }
